@@ -162,6 +162,26 @@ def doc_level(ctx: Ctx, cs):
         bars = []
         for st in doc.tree.stages:
             bars.append(tuple(n.token.category.name == 'BARLINES' for n in st if n.token is not None))
+        # every barline cell of a column of this type, in place in the document, is the token a fresh importer of the type gives for
+        # that cell alone (whatever its neighbours on the row are: the cells of a barline row need not agree)
+        stage = 0
+        for ln in d.lines:
+            if ln.kind == 'b':
+                continue
+            stage += 1
+            if ln.kind != 'bar' or stage >= len(doc.tree.stages) or len(doc.tree.stages[stage]) != len(ln.cells):
+                continue
+            for c_, n_ in zip(ln.cells, doc.tree.stages[stage]):
+                if c_.spine not in cols:
+                    continue
+                ctx.mon('barline_cells_in_place_vs_fresh_importer')
+                want = _outcome(lambda t_: kp.createImporter(h).import_token(t_), c_.text)
+                got = ('ok',) + tuple(kpx.tok_fp(n_.token)) if n_.token is not None else ('none',)
+                if want[0] == 'ok' and tuple(want) != tuple(got):
+                    ctx.violation('barline-in-place-differs', f'{h}: barline cell {c_.text!r} (line {stage}, next to '
+                                  f'{[x.text for x in ln.cells]}) is {str(got)[:120]} in the document, a fresh {h} importer gives '
+                                  f'{str(want)[:120]}', case)
+                    break
         sig = (tuple(doc.measure_start_tree_stages), tuple(bars), len(errs))
         if ref is None:
             ref = (h, sig)
